@@ -246,6 +246,16 @@ func (g *Gen) genTypes() {
 		g.unions = append(g.unions, ud)
 		g.add(ud)
 	}
+	if g.P.GenericTypes && g.R.Chance(0.5) {
+		// a generic union and a generic record, each used at two instantiations
+		g.add(&RawDecl{Names: []string{"GOpt", "GSome", "GNone"}, Text: "type GOpt<T> =\n| GSome of T\n| GNone"})
+		g.add(&RawDecl{Names: []string{"GBox", "GItem", "GCnt"}, Text: "type GBox<T> = {GItem: T; GCnt: int}"})
+		for _, ta := range []*Type{TInt, TString} {
+			g.unions = append(g.unions, &UnionDef{Name: "GOpt<" + ta.String() + ">", Generic: true, TArg: ta, Cases: []UCase{{"GSome", ta}, {"GNone", nil}}})
+			g.recs = append(g.recs, &RecordDef{Name: "GBox<" + ta.String() + ">", Generic: true, Fields: []Field{{"GItem", ta}, {"GCnt", TInt}}})
+		}
+		g.feat("generic-union-and-record")
+	}
 	if g.P.CompositeEq && g.P.Name == "c01" {
 		// a record with a union-typed field (defined after the unions): equality on it
 		// compares union values nested in a struct
